@@ -5,6 +5,7 @@ import (
 	"compress/zlib"
 	"fmt"
 	"io"
+	"math"
 )
 
 // Params represents decode parameters from PDF stream dictionaries.
@@ -92,7 +93,10 @@ func applyTIFFPredictor2(data []byte, params Params) ([]byte, error) {
 		return nil, fmt.Errorf("TIFF Predictor 2 only supports 8 bits per component, got %d", bpc)
 	}
 
-	rowSize := columns * colors
+	rowSize, err := predictorRowBytes(columns, colors)
+	if err != nil {
+		return nil, err
+	}
 	if len(data)%rowSize != 0 {
 		return nil, fmt.Errorf("data size %d is not a multiple of row size %d", len(data), rowSize)
 	}
@@ -116,6 +120,24 @@ func applyTIFFPredictor2(data []byte, params Params) ([]byte, error) {
 	return result, nil
 }
 
+// maxPredictorRowBytes bounds Columns*Colors so that the row arithmetic of the
+// predictors cannot overflow an int on any platform.
+const maxPredictorRowBytes = math.MaxInt32 - 1
+
+// predictorRowBytes validates the Columns and Colors decode parameters and
+// returns the number of data bytes per row (at 8 bits per component). Both
+// must be positive: a zero or negative row size would otherwise divide by
+// zero or produce output that does not come from the data.
+func predictorRowBytes(columns, colors int) (int, error) {
+	if columns < 1 || colors < 1 {
+		return 0, fmt.Errorf("invalid predictor parameters: Columns=%d, Colors=%d", columns, colors)
+	}
+	if columns > maxPredictorRowBytes/colors {
+		return 0, fmt.Errorf("predictor row too large: Columns=%d, Colors=%d", columns, colors)
+	}
+	return columns * colors, nil
+}
+
 // applyPNGPredictor applies PNG predictor algorithms. Each row starts with
 // a predictor byte (0-4) that specifies which algorithm to use for that row.
 func applyPNGPredictor(data []byte, predictor int, params Params) ([]byte, error) {
@@ -129,7 +151,11 @@ func applyPNGPredictor(data []byte, predictor int, params Params) ([]byte, error
 
 	// PNG predictors work on rows with a predictor byte at the start of each row
 	bytesPerPixel := colors
-	rowSize := columns*colors + 1 // +1 for predictor byte
+	rowBytes, err := predictorRowBytes(columns, colors)
+	if err != nil {
+		return nil, err
+	}
+	rowSize := rowBytes + 1 // +1 for predictor byte
 
 	if len(data)%rowSize != 0 {
 		return nil, fmt.Errorf("data size %d is not a multiple of row size %d", len(data), rowSize)
